@@ -12,6 +12,7 @@ pub mod c09;
 pub mod c10;
 pub mod c11;
 pub mod c12;
+pub mod c13;
 pub mod c14;
 pub mod c16;
 pub mod c18;
@@ -30,6 +31,7 @@ pub fn all() -> Vec<Box<dyn Property>> {
         Box::new(c10::C10),
         Box::new(c11::C11),
         Box::new(c12::C12),
+        Box::new(c13::C13),
         Box::new(c14::C14),
         Box::new(c16::C16),
         Box::new(c18::C18),
